@@ -873,12 +873,16 @@ def r5_r6(prog, rep, topos):
                     targets.append((n, e))
     # plain local definitions that the collected subscripts need (e.g. a guard count set unconditionally)
     needed = {x.id for _n, e in targets for x in ast.walk(e) if isinstance(x, ast.Name)} - tnames - {"numpy", "myg"}
+    # ... and what the derived definitions themselves read (core_start = jyseps1_1 + first_guards + 1)
+    needed |= {x.id for st in local_defs if isinstance(st, ast.Assign) for x in ast.walk(st.value) if isinstance(x, ast.Name)} - tnames - {"numpy", "myg", "self"}
+    # ... and the decisions kept in a local that the conditional definitions test (`if starts_at_wall:`)
+    needed |= {x.id for st in local_defs if isinstance(st, ast.If) for i in ast.walk(st) if isinstance(i, ast.If) for x in ast.walk(i.test) if isinstance(x, ast.Name)} - tnames - {"numpy", "myg", "self"}
     changed = True
     while changed:
         changed = False
         for st in body:
             if isinstance(st, ast.Assign) and isinstance(st.targets[0], ast.Name) and st.targets[0].id in needed and st not in local_defs \
-                    and isinstance(st.value, (ast.Name, ast.Constant, ast.BinOp, ast.IfExp, ast.Attribute)):
+                    and isinstance(st.value, (ast.Name, ast.Constant, ast.BinOp, ast.IfExp, ast.Attribute, ast.Compare, ast.BoolOp)):
                 local_defs.append(st)
                 more = {x.id for x in ast.walk(st.value) if isinstance(x, ast.Name)} - tnames - needed - {"myg", "numpy"}
                 if more:
@@ -936,6 +940,9 @@ def r5_r6(prog, rep, topos):
                     v = ex.expr(xn, env)
                 except AlgError as err2:
                     rep.ob("R5", "%s: with-guard subscript %s evaluable" % (t.name, T(mod, xn)), False, w.site(node), str(err2), key="guards/%s/%s" % (t.name, T(mod, xn)))
+                    continue
+                if not isinstance(v, Rat):
+                    rep.ob("R5", "%s: with-guard subscript %s evaluable" % (t.name, T(mod, xn)), False, w.site(node), "not representable: %s" % (v,), key="guards/%s/%s" % (t.name, T(mod, xn)))
                     continue
                 # must coincide with a with-guard region boundary or the first real cell of a region
                 ok = any((v - g).is_zero() for g in G) or any((v - g).is_zero() for g in first_real)
